@@ -62,7 +62,7 @@ class _Desugar(ast.NodeTransformer):
 
 # methods whose body is analysed with the helper methods of their own class expanded in place (extract-method refactorings of these
 # functions must not hide the obligation sites from the rules that are phrased over their flow graph)
-INLINE_HOSTS = {('DocTest', 'run')}
+INLINE_HOSTS = {('DocTest', 'run'), ('DoctestParser', '_label_docsrc_lines')}
 
 
 class _Rename(ast.NodeTransformer):
@@ -132,11 +132,13 @@ class _InlineMethods:
         self.counter = 0
 
     def run(self):
+        self.module_funcs = {n.name: n for n in self.tree.body if isinstance(n, ast.FunctionDef)}
         for cls in [n for n in self.tree.body if isinstance(n, ast.ClassDef)]:
             methods = {m.name: m for m in cls.body if isinstance(m, (ast.FunctionDef,))}
             for (cname, mname) in INLINE_HOSTS:
                 if cls.name == cname and mname in methods:
                     host = methods[mname]
+                    self.host_key = (cname, mname)
                     for _ in range(2):
                         host.body = self._block(host.body, host, methods)
 
@@ -155,10 +157,29 @@ class _InlineMethods:
                 return True
         return False
 
+    LABELS = {'text', 'dsrc', 'dcnt', 'want'}
+
+    def _returns_labels(self, m):
+        """a transition helper of the line labeller: it returns line labels (the constants or names bound to them at module level)"""
+        consts = {}
+        for st in self.tree.body:
+            if isinstance(st, ast.Assign) and len(st.targets) == 1 and isinstance(st.targets[0], ast.Name) and isinstance(st.value, ast.Constant) and st.value.value in self.LABELS:
+                consts[st.targets[0].id] = st.value.value
+        n = 0
+        for x in ast.walk(m):
+            if isinstance(x, ast.Return) and x.value is not None:
+                for y in ast.walk(x.value):
+                    if (isinstance(y, ast.Constant) and y.value in self.LABELS) or (isinstance(y, ast.Name) and y.id in consts):
+                        n += 1
+        return n >= 2
+
     def _eligible(self, host, m):
         if m is host or m.decorator_list or m.args.vararg or m.args.kwarg or len(m.body) > 80:
             return False
-        if not self._carries_obligation_sites(m):
+        if self.host_key == ('DocTest', 'run'):
+            if not self._carries_obligation_sites(m):
+                return False
+        elif not self._returns_labels(m):
             return False
         for x in ast.walk(m):
             if isinstance(x, (ast.Yield, ast.YieldFrom, ast.Await, ast.Global, ast.Nonlocal)):
@@ -188,20 +209,28 @@ class _InlineMethods:
                     continue
                 except ValueError:
                     pass
+            elif call is not None and isinstance(call.func, ast.Name) and call.func.id in self.module_funcs and self._eligible(host, self.module_funcs[call.func.id]):
+                try:
+                    out += self._expand(st, call, target, host, self.module_funcs[call.func.id], has_recv=False)
+                    continue
+                except ValueError:
+                    pass
             out.append(st)
         return out
 
-    def _expand(self, st, call, target, host, m):
+    def _expand(self, st, call, target, host, m, has_recv=True):
         import copy
         if any(isinstance(a, ast.Starred) for a in call.args) or any(k.arg is None for k in call.keywords):
             raise ValueError('star arguments')
         self.counter += 1
         tag = '__%s_%d_' % (m.name.strip('_'), self.counter)
         params = [a.arg for a in m.args.posonlyargs + m.args.args] + [a.arg for a in m.args.kwonlyargs]
+        if not has_recv:
+            params = ['<no receiver>'] + params
         recv_m = params[0]
         recv_h = host.args.args[0].arg
         bound = {}
-        pos = params[1:len(m.args.posonlyargs + m.args.args)]
+        pos = params[1:len(m.args.posonlyargs + m.args.args) + (0 if has_recv else 1)]
         for p_, a in zip(pos, call.args):
             bound[p_] = a
         if len(call.args) > len(pos):
@@ -223,7 +252,7 @@ class _InlineMethods:
             for x in ast.walk(b):
                 if isinstance(x, ast.ExceptHandler) and x.name:
                     stored.add(x.name)
-        mapping = {recv_m: recv_h}
+        mapping = {recv_m: recv_h} if has_recv else {}
         pre = []
         for p_ in params[1:]:
             a = bound[p_]
